@@ -103,8 +103,115 @@ func (vc *VC) compileSpec(si *specInfo, pkg *types.Package) {
 	sort.Strings(si.comps)
 }
 
+// specCalls collects the spec functions called in an expression.
+func specCalls(e Expr, specs map[string]*SpecFunc, out map[string]bool) {
+	switch x := e.(type) {
+	case *ECall:
+		if _, ok := specs[x.Fn]; ok {
+			out[x.Fn] = true
+		}
+		for _, a := range x.Args {
+			specCalls(a, specs, out)
+		}
+	case *EIdent:
+		if sf, ok := specs[x.Name]; ok && len(sf.Params) == 0 {
+			out[x.Name] = true
+		}
+	case *EUnary:
+		specCalls(x.X, specs, out)
+	case *EBinary:
+		specCalls(x.X, specs, out)
+		specCalls(x.Y, specs, out)
+	case *ECond:
+		specCalls(x.C, specs, out)
+		specCalls(x.A, specs, out)
+		specCalls(x.B, specs, out)
+	case *ESel:
+		specCalls(x.X, specs, out)
+	case *EIndex:
+		specCalls(x.X, specs, out)
+		specCalls(x.I, specs, out)
+	case *ESlice:
+		specCalls(x.X, specs, out)
+		if x.Lo != nil {
+			specCalls(x.Lo, specs, out)
+		}
+		if x.Hi != nil {
+			specCalls(x.Hi, specs, out)
+		}
+	case *EQuant:
+		specCalls(x.Body, specs, out)
+	case *EOld:
+		specCalls(x.X, specs, out)
+	case *EDeref:
+		specCalls(x.X, specs, out)
+	case *EAddr:
+		specCalls(x.X, specs, out)
+	}
+}
+
+// isRecursiveSpec reports whether a spec function can reach itself.
+func (P *Program) isRecursiveSpec(name string) bool {
+	if v, ok := P.recSpec[name]; ok {
+		return v
+	}
+	seen := map[string]bool{}
+	var visit func(n string) bool
+	visit = func(n string) bool {
+		sf := P.contracts.Specs[n]
+		if sf == nil || sf.Body == nil {
+			return false
+		}
+		calls := map[string]bool{}
+		specCalls(sf.Body, P.contracts.Specs, calls)
+		for c := range calls {
+			if c == name {
+				return true
+			}
+			if !seen[c] {
+				seen[c] = true
+				if visit(c) {
+					return true
+				}
+			}
+		}
+		return false
+	}
+	r := visit(name)
+	if P.recSpec == nil {
+		P.recSpec = map[string]bool{}
+	}
+	P.recSpec[name] = r
+	return r
+}
+
 // callSpec emits an application of a spec function in the given state.
+// Non-recursive spec functions are expanded in place.
 func (vc *VC) callSpec(sf *SpecFunc, args []Val, st *State) Val {
+	if !sf.Opaque && !vc.prog.isRecursiveSpec(sf.Name) {
+		var pkg *types.Package
+		for _, p := range vc.prog.allPkgs {
+			if p.Path() == sf.Pkg {
+				pkg = p
+			}
+		}
+		if pkg == nil && vc.fn != nil {
+			pkg = vc.fn.Pkg.Pkg
+		}
+		env := &Env{vc: vc, names: map[string]envEntry{}, pkg: pkg}
+		for i, p := range sf.Params {
+			v := args[i]
+			pt := vc.prog.resolveType(p.Type, pkg)
+			if v.T == nil || kindOf(pt) == v.K {
+				v.T = pt
+			}
+			env.names[p.Name] = envEntry{val: &v}
+		}
+		r := vc.evalVal(sf.Body, env, st, st)
+		rt := vc.prog.resolveType(sf.Ret, pkg)
+		r.T = rt
+		return r
+	}
 	si := vc.specInfoFor(sf)
 	if vc.curSpec != nil {
 		vc.curSpec.deps[sf.Name] = true
